@@ -68,6 +68,8 @@ type bmcLoc struct {
 	final  bool
 	start  bool
 	body   *ssa.Function
+	owner  *ssa.Function // thread body this location belongs to
+	err    string        // error location: panic / divergence between two visible operations
 }
 
 type bmcEdge struct {
@@ -86,9 +88,11 @@ type BMCSpec struct {
 	Safe     string   `json:"safe"`     // harness predicate over the shared object: must hold in every state
 	NoDeadlock bool   `json:"no_deadlock"`
 	FinalOK  string   `json:"final"`    // optional predicate that must hold when all threads finished
+	Cubes    int      `json:"cubes"`    // cube-and-conquer: case split on the first Cubes scheduler choices (N^Cubes sub-queries per query)
 }
 
 type bmcCtx struct {
+	cellName map[int]string
 	locs    []*bmcLoc
 	byKey   map[string]*bmcLoc
 	edges   []*bmcEdge
@@ -104,6 +108,96 @@ type bmcCtx struct {
 	curEdgeTo *bmcLoc
 	ptrCells  map[int]string // pointer-valued cells: shape at start of the step
 	nsetup    int
+	// symbolic pointer cells: domain of target ids per cell (fixpoint over extraction rounds)
+	ptrDom  map[int]map[int]bool
+	domGrew bool
+	rounds  int
+}
+
+const ptrW = 16
+
+// nameCells gives readable names (field paths from the shared root and globals) to locations.
+func (x *X) nameCells(root Value) {
+	b := x.bmc
+	if b.cellName == nil {
+		b.cellName = map[int]string{}
+	}
+	var walk func(l Loc, path string)
+	walk = func(l Loc, path string) {
+		switch l := l.(type) {
+		case *ScalarLoc:
+			if l.ID != 0 && b.cellName[l.ID] == "" {
+				b.cellName[l.ID] = path
+			}
+		case *StructLoc:
+			if l.ID != 0 && b.cellName[l.ID] == "" {
+				b.cellName[l.ID] = path
+			}
+			st, _ := l.T.Underlying().(*types.Struct)
+			for i, f := range l.F {
+				n := fmt.Sprint(i)
+				if st != nil && i < st.NumFields() {
+					n = st.Field(i).Name()
+				}
+				walk(f, path+"."+n)
+			}
+		case *ArrayLoc:
+			for i, e := range l.E {
+				walk(e, fmt.Sprintf("%s[%d]", path, i))
+			}
+		}
+	}
+	if p, ok := root.(Pointer); ok && p.L != nil {
+		walk(p.L, "shared")
+	}
+	for g, l := range x.globals {
+		walk(l, g.Name())
+	}
+}
+
+// resolveSymPtr case-splits a symbolic pointer cell over its domain.
+func (x *X) resolveSymPtr(sp SymPtr) Value {
+	b := x.bmc
+	if b == nil {
+		x.unsupported("symbolic pointer outside interleaving mode")
+	}
+	var dom []int
+	for id := range b.ptrDom[sp.Cell] {
+		dom = append(dom, id)
+	}
+	sort.Ints(dom)
+	i := x.choose(len(dom))
+	id := dom[i]
+	x.addPC(x.B.Eq(sp.T, x.B.Const(uint64(id), ptrW)))
+	if id == 0 {
+		return Pointer{}
+	}
+	return Pointer{L: x.locByID[id-1]}
+}
+
+func (b *bmcCtx) domAdd(cell, id int) {
+	if b.ptrDom[cell] == nil {
+		b.ptrDom[cell] = map[int]bool{}
+	}
+	if !b.ptrDom[cell][id] {
+		b.ptrDom[cell][id] = true
+		b.domGrew = true
+	}
+}
+
+// ptrTarget returns the id stored for a concrete pointer value (0 for nil), or -1.
+func (x *X) ptrTarget(p Pointer) int {
+	if p.IsNil() {
+		return 0
+	}
+	if p.L == nil {
+		return -1
+	}
+	id := locID(p.L)
+	if id == 0 || (x.bmc.nsetup > 0 && id > x.bmc.nsetup) {
+		return -1
+	}
+	return id
 }
 
 func locID(l Loc) int {
@@ -428,7 +522,7 @@ func (x *X) bmcFinish(op string, final bool) {
 	key := kb.String()
 	to := b.byKey[key]
 	if to == nil {
-		to = &bmcLoc{id: len(b.locs), key: key, frames: frames, op: op, final: final}
+		to = &bmcLoc{id: len(b.locs), key: key, frames: frames, op: op, final: final, owner: b.cur.owner}
 		for i, t := range terms {
 			to.regW = append(to.regW, t.W)
 			to.regN = append(to.regN, names[i])
@@ -454,6 +548,23 @@ func (x *X) bmcFinish(op string, final bool) {
 					e.cells[id] = v
 				}
 			}
+		case SymPtr:
+			if v.Cell != id {
+				x.unsupported("interleaving mode: unresolved symbolic pointer copied between cells")
+			}
+		case Pointer:
+			if _, isPtr := b.ptrDom[id]; isPtr {
+				tid := x.ptrTarget(v)
+				if tid < 0 {
+					x.unsupported(fmt.Sprintf("interleaving mode: shared pointer cell %d gets a pointer to thread-local or interior memory", id))
+				}
+				e.cells[id] = x.B.Const(uint64(tid), ptrW)
+				b.domAdd(id, tid)
+				continue
+			}
+			if sh, ok := b.ptrCells[id]; ok && sh != x.absShape(sc.V) {
+				x.unsupported(fmt.Sprintf("interleaving mode: pointer-valued shared cell %d written by a thread", id))
+			}
 		default:
 			if sh, ok := b.ptrCells[id]; ok && sh != x.absShape(sc.V) {
 				x.unsupported(fmt.Sprintf("interleaving mode: pointer-valued shared cell %d written by a thread (needs symbolic pointers)", id))
@@ -471,6 +582,22 @@ func (x *X) bmcFinish(op string, final bool) {
 	b.edges = append(b.edges, e)
 }
 
+// bmcErrEdge records an edge from the current source location to an error location.
+func (x *X) bmcErrEdge(kind, msg string) {
+	b := x.bmc
+	if kind == "unwind" {
+		msg = "no visible operation within the step budget (divergence between two atomic operations)"
+	}
+	key := "ERR:" + kind + ": " + msg
+	to := b.byKey[key]
+	if to == nil {
+		to = &bmcLoc{id: len(b.locs), key: key, op: "error", err: kind + ": " + msg, owner: b.cur.owner}
+		b.locs = append(b.locs, to)
+		b.byKey[key] = to
+	}
+	b.edges = append(b.edges, &bmcEdge{from: b.cur.id, to: to.id, guard: x.B.And(x.pc...), cells: map[int]*T{}, chans: map[int]*T{}})
+}
+
 func (x *X) absShape(v Value) string {
 	defer func() { recover() }()
 	return x.absValue(v).shape()
@@ -480,10 +607,34 @@ func (x *X) absShape(v Value) string {
 func (x *X) BMCExtract(setup *ssa.Function, bodies []*ssa.Function) {
 	b := &bmcCtx{byKey: map[string]*bmcLoc{}, cellW: map[int]int{}, cellInit: map[int]uint64{}, chanCap: map[int]int{}, chanInit: map[int]uint64{}}
 	x.bmc = b
+	x.realSleep = true
 	x.St = Stats{PathKinds: map[string]int{}, Funcs: map[string]bool{}, Reached: map[string]bool{}, Notes: map[string]int{}, KnownHit: map[string]string{}, StubsUsed: map[string]int{}}
 	if x.Cfg.MaxConcVals == 0 {
 		x.Cfg.MaxConcVals = 70
 	}
+	b.ptrDom = map[int]map[int]bool{}
+	for {
+		b.rounds++
+		b.domGrew = false
+		b.locs, b.edges, b.byKey = nil, nil, map[string]*bmcLoc{}
+		x.bmcExtractRound(setup, bodies)
+		if len(x.St.Inconclusive) > 0 || !b.domGrew {
+			return
+		}
+		for _, k := range []string{"unsupported", "unwind"} {
+			if x.St.PathKinds[k] > 0 {
+				return
+			}
+		}
+		if b.rounds > 12 {
+			x.St.Inconclusive = append(x.St.Inconclusive, "interleaving mode: pointer domains did not stabilise in 12 rounds")
+			return
+		}
+	}
+}
+
+func (x *X) bmcExtractRound(setup *ssa.Function, bodies []*ssa.Function) {
+	b := x.bmc
 	// START locations, one per distinct body
 	done := map[*ssa.Function]bool{}
 	for _, body := range bodies {
@@ -491,7 +642,7 @@ func (x *X) BMCExtract(setup *ssa.Function, bodies []*ssa.Function) {
 			continue
 		}
 		done[body] = true
-		l := &bmcLoc{id: len(b.locs), key: "START:" + body.String(), start: true, body: body}
+		l := &bmcLoc{id: len(b.locs), key: "START:" + body.String(), start: true, body: body, owner: body}
 		// registers of START: tid and choice (params 1 and 2)
 		l.nregs, l.regW = 2, []int{64, 64}
 		l.regN = []string{regName(0, body.Params[1], 0), regName(0, body.Params[2], 0)}
@@ -500,7 +651,7 @@ func (x *X) BMCExtract(setup *ssa.Function, bodies []*ssa.Function) {
 	}
 	for i := 0; i < len(b.locs); i++ {
 		l := b.locs[i]
-		if l.final {
+		if l.final || l.err != "" {
 			continue
 		}
 		x.trace = nil
@@ -514,7 +665,7 @@ func (x *X) BMCExtract(setup *ssa.Function, bodies []*ssa.Function) {
 			if !x.backtrack() {
 				break
 			}
-			if x.St.Paths > 20000 {
+			if x.St.Paths > 200000 {
 				x.St.Inconclusive = append(x.St.Inconclusive, "interleaving mode: path budget exhausted during extraction")
 				return
 			}
@@ -527,8 +678,12 @@ func (x *X) bmcExploreFrom(setup *ssa.Function, l *bmcLoc) {
 	b.active = false
 	x.runInits(setup.Pkg)
 	shared := x.call(setup, nil, nil)
+	if b.cellName == nil {
+		x.nameCells(shared)
+	}
 	// make shared scalar cells symbolic
 	b.ptrCells = map[int]string{}
+	b.nsetup = len(x.locByID)
 	for i, loc := range x.locByID {
 		id := i + 1
 		sc, ok := loc.(*ScalarLoc)
@@ -543,6 +698,20 @@ func (x *X) bmcExploreFrom(setup *ssa.Function, l *bmcLoc) {
 			b.cellW[id] = v.W
 			b.cellInit[id] = v.Val
 			sc.V = x.B.Var(fmt.Sprintf("c%d", id), v.W)
+		case Pointer:
+			tid := x.ptrTarget(v)
+			if tid < 0 {
+				b.ptrCells[id] = x.absShape(sc.V)
+				continue
+			}
+			b.cellW[id] = ptrW
+			b.cellInit[id] = uint64(tid)
+			if b.ptrDom[id] == nil || !b.ptrDom[id][tid] {
+				grew := b.domGrew
+				b.domAdd(id, tid)
+				b.domGrew = grew // the initial value is known before any edge is recorded
+			}
+			sc.V = SymPtr{T: x.B.Var(fmt.Sprintf("c%d", id), ptrW), Cell: id}
 		default:
 			b.ptrCells[id] = x.absShape(sc.V)
 		}
@@ -557,10 +726,10 @@ func (x *X) bmcExploreFrom(setup *ssa.Function, l *bmcLoc) {
 		c.Buf = nil
 		c.Count = x.B.Var(fmt.Sprintf("ch%d", id), 8)
 	}
-	b.nsetup = len(x.locByID)
 	b.cur = l
 	b.baseDepth = len(x.stack)
 	b.active = true
+	x.Cfg.MaxSteps = x.steps + 50000 // one step between two visible operations is short; longer = divergence
 	k := 0
 	next := func(w int) *T {
 		t := x.B.Var(l.regN[k], w)
@@ -610,7 +779,10 @@ func (x *X) bmcExploreFrom(setup *ssa.Function, l *bmcLoc) {
 // ---------------------------------------------------------------------------
 // Bounded model checking over the extracted automata
 
+var bmcSem = make(chan struct{}, 16)
+
 type BMCResult struct {
+	Cubes            int
 	Locations, Edges int
 	Steps            int
 	Queries          []BMCQuery
@@ -638,6 +810,7 @@ type bmcModel struct {
 	trans   []*T // constraints
 	enabled [][]*T
 	endID   int
+	written map[int]bool
 }
 
 func (x *X) bmcUnroll(bodies []*ssa.Function, K int) *bmcModel {
@@ -651,9 +824,21 @@ func (x *X) bmcUnroll(bodies []*ssa.Function, K int) *bmcModel {
 	}
 	startOf := func(body *ssa.Function) *bmcLoc { return b.byKey["START:"+body.String()] }
 	// register names per location: r<loc>_<i>
+	// cells that no edge writes keep their initial value: constants in every state
+	written := map[int]bool{}
+	for _, e := range b.edges {
+		for id := range e.cells {
+			written[id] = true
+		}
+	}
+	m.written = written
 	mkState := func(k int) {
 		cs, hs := map[int]*T{}, map[int]*T{}
 		for id, w := range b.cellW {
+			if !written[id] {
+				cs[id] = B.Const(b.cellInit[id], w)
+				continue
+			}
 			cs[id] = B.Var(fmt.Sprintf("C%d@%d", id, k), w)
 		}
 		for id := range b.chanCap {
@@ -668,9 +853,12 @@ func (x *X) bmcUnroll(bodies []*ssa.Function, K int) *bmcModel {
 	for k := 0; k <= K; k++ {
 		mkState(k)
 		for t := 0; t < m.nthr; t++ {
-			m.pc[t] = append(m.pc[t], B.Var(fmt.Sprintf("pc%d@%d", t, k), 8))
+			m.pc[t] = append(m.pc[t], B.Var(fmt.Sprintf("pc%d@%d", t, k), 16))
 			rs := map[string]*T{}
 			for _, l := range b.locs {
+				if l.owner != bodies[t] && !l.final {
+					continue
+				}
 				for i, w := range l.regW {
 					n := l.regN[i]
 					rs[n] = B.Var(fmt.Sprintf("%s.t%d@%d", n, t, k), w)
@@ -684,14 +872,16 @@ func (x *X) bmcUnroll(bodies []*ssa.Function, K int) *bmcModel {
 	}
 	// initial state
 	for id, v := range b.cellInit {
-		m.trans = append(m.trans, B.Eq(m.cells[0][id], B.Const(v, b.cellW[id])))
+		if written[id] {
+			m.trans = append(m.trans, B.Eq(m.cells[0][id], B.Const(v, b.cellW[id])))
+		}
 	}
 	for id, v := range b.chanInit {
 		m.trans = append(m.trans, B.Eq(m.chans[0][id], B.Const(v, 8)))
 	}
 	for t, body := range bodies {
 		st := startOf(body)
-		m.trans = append(m.trans, B.Eq(m.pc[t][0], B.Const(uint64(st.id), 8)))
+		m.trans = append(m.trans, B.Eq(m.pc[t][0], B.Const(uint64(st.id), 16)))
 		m.trans = append(m.trans, B.Eq(m.regs[t][0][st.regN[0]], B.Const(uint64(t), 64)))
 	}
 	// substitution of an edge term into step k for thread t
@@ -726,10 +916,13 @@ func (x *X) bmcUnroll(bodies []*ssa.Function, K int) *bmcModel {
 				regNext[n] = v
 			}
 			for _, e := range b.edges {
-				cond := B.And(B.Eq(m.pc[t][k], B.Const(uint64(e.from), 8)), inst(e.guard, t, k))
+				if b.locs[e.from].owner != bodies[t] {
+					continue
+				}
+				cond := B.And(B.Eq(m.pc[t][k], B.Const(uint64(e.from), 16)), inst(e.guard, t, k))
 				en = append(en, cond)
 				take := B.And(isT, cond)
-				pcNext = B.Ite(take, B.Const(uint64(e.to), 8), pcNext)
+				pcNext = B.Ite(take, B.Const(uint64(e.to), 16), pcNext)
 				for i, rv := range e.regs {
 					n := b.locs[e.to].regN[i]
 					if rv.Op == smt.OpVar && rv.Name == n {
@@ -759,6 +952,9 @@ func (x *X) bmcUnroll(bodies []*ssa.Function, K int) *bmcModel {
 			m.trans = append(m.trans, B.Implies(B.And(isT, any), m.enabled[t][k]))
 		}
 		for id := range b.cellW {
+			if !written[id] {
+				continue
+			}
 			nv := m.cells[k][id]
 			for _, u := range cellUpd[id] {
 				nv = B.Ite(u.cond, u.val, nv)
@@ -777,7 +973,10 @@ func (x *X) bmcUnroll(bodies []*ssa.Function, K int) *bmcModel {
 	for t := 0; t < m.nthr; t++ {
 		var en []*T
 		for _, e := range b.edges {
-			en = append(en, B.And(B.Eq(m.pc[t][K], B.Const(uint64(e.from), 8)), inst(e.guard, t, K)))
+			if b.locs[e.from].owner != bodies[t] {
+				continue
+			}
+			en = append(en, B.And(B.Eq(m.pc[t][K], B.Const(uint64(e.from), 16)), inst(e.guard, t, K)))
 		}
 		m.enabled[t] = append(m.enabled[t], B.Or(en...))
 	}
@@ -812,6 +1011,11 @@ func (x *X) bmcPredicate(setup, pred *ssa.Function) *T {
 				if v, ok := sc.V.(*T); ok {
 					if _, sh := b.cellW[id]; sh {
 						sc.V = x.B.Var(fmt.Sprintf("c%d", id), v.W)
+					}
+				}
+				if _, ok := sc.V.(Pointer); ok {
+					if _, isPtr := b.ptrDom[id]; isPtr {
+						sc.V = SymPtr{T: x.B.Var(fmt.Sprintf("c%d", id), ptrW), Cell: id}
 					}
 				}
 			}
@@ -893,7 +1097,7 @@ func (x *X) BMCCheck(spec BMCSpec, pkg *ssa.Package) *BMCResult {
 	allDone := func(k int) *T {
 		var cs []*T
 		for t := 0; t < m.nthr; t++ {
-			cs = append(cs, B.Eq(m.pc[t][k], B.Const(uint64(m.endID), 8)))
+			cs = append(cs, B.Eq(m.pc[t][k], B.Const(uint64(m.endID), 16)))
 		}
 		return B.And(cs...)
 	}
@@ -908,40 +1112,127 @@ func (x *X) BMCCheck(spec BMCSpec, pkg *ssa.Package) *BMCResult {
 	for t := 0; t < m.nthr; t++ {
 		want = append(want, m.pc[t]...)
 	}
-	ask := func(name string, bad *T, violationMsg string) {
-		as := append(append([]*T{}, m.trans...), bad)
-		t0 := now()
-		r, vals := x.S.Check(B, as, want, nil)
-		q := BMCQuery{Name: name, Result: r.String(), Seconds: since(t0)}
-		res.Queries = append(res.Queries, q)
-		switch r {
-		case smt.Sat:
-			if violationMsg != "" {
-				model := map[string]uint64{}
-				for i, w := range want {
-					model[w.Name] = vals[i]
-				}
-				var sched []int
-				for k := 0; k < K; k++ {
-					sched = append(sched, int(model[fmt.Sprintf("sched@%d", k)]))
-				}
-				res.Schedule = sched
-				x.St.Violations = append(x.St.Violations, Violation{Msg: violationMsg, Kind: "assert", Model: model, Where: "interleaving of " + strings.Join(specThreads(spec), ", ")})
-			} else {
-				x.St.Inconclusive = append(x.St.Inconclusive, name+": some execution is not complete within "+fmt.Sprint(K)+" scheduler steps (unwinding assertion)")
+	var cellIDs []int
+	for id := range b.cellW {
+		cellIDs = append(cellIDs, id)
+	}
+	sort.Ints(cellIDs)
+	for k := 0; k <= K; k++ {
+		for _, id := range cellIDs {
+			if m.written[id] {
+				want = append(want, m.cells[k][id])
 			}
-		case smt.Unknown:
-			x.St.Inconclusive = append(x.St.Inconclusive, name+": solver unknown")
+		}
+		for id := range b.chanCap {
+			want = append(want, m.chans[k][id])
 		}
 	}
-	// reachability witness: some complete execution exists
-	{
-		as := append(append([]*T{}, m.trans...), allDone(K))
-		r, _ := x.S.Check(B, as, nil, nil)
-		res.Queries = append(res.Queries, BMCQuery{Name: "witness: a complete execution exists", Result: r.String()})
-		if r == smt.Sat {
-			x.St.Reached["complete-execution"] = true
+	cellLabel := func(id int) string {
+		if n := b.cellName[id]; n != "" {
+			return n
 		}
+		return fmt.Sprintf("cell%d", id)
+	}
+	mkTrace := func(model map[string]uint64) []string {
+		var tr []string
+		val := func(id int, k int) string {
+			v := model[fmt.Sprintf("C%d@%d", id, k)]
+			if !m.written[id] {
+				v = b.cellInit[id]
+			}
+			if _, isPtr := b.ptrDom[id]; isPtr {
+				if v == 0 {
+					return "nil"
+				}
+				return "&" + cellLabel(int(v))
+			}
+			return fmt.Sprint(int64(v))
+		}
+		var init []string
+		for _, id := range cellIDs {
+			init = append(init, cellLabel(id)+"="+val(id, 0))
+		}
+		tr = append(tr, "initial: "+strings.Join(init, " "))
+		for k := 0; k < K; k++ {
+			t := int(model[fmt.Sprintf("sched@%d", k)])
+			if t >= m.nthr {
+				continue
+			}
+			from := int(model[fmt.Sprintf("pc%d@%d", t, k)])
+			to := int(model[fmt.Sprintf("pc%d@%d", t, k+1)])
+			if from == to {
+				same := true
+				for _, id := range cellIDs {
+					if model[fmt.Sprintf("C%d@%d", id, k)] != model[fmt.Sprintf("C%d@%d", id, k+1)] {
+						same = false
+					}
+				}
+				if same {
+					continue // stutter (nothing enabled)
+				}
+			}
+			var ch []string
+			for _, id := range cellIDs {
+				if model[fmt.Sprintf("C%d@%d", id, k)] != model[fmt.Sprintf("C%d@%d", id, k+1)] {
+					ch = append(ch, cellLabel(id)+": "+val(id, k)+" -> "+val(id, k+1))
+				}
+			}
+			for id := range b.chanCap {
+				if model[fmt.Sprintf("CH%d@%d", id, k)] != model[fmt.Sprintf("CH%d@%d", id, k+1)] {
+					ch = append(ch, fmt.Sprintf("chan%d tokens: %d -> %d", id, model[fmt.Sprintf("CH%d@%d", id, k)], model[fmt.Sprintf("CH%d@%d", id, k+1)]))
+				}
+			}
+			desc := func(id int) string {
+				if id < len(b.locs) {
+					l := b.locs[id]
+					if l.final {
+						return "END"
+					}
+					if l.err != "" {
+						return "ERROR(" + l.err + ")"
+					}
+					if l.start {
+						return "START"
+					}
+					top := l.frames[len(l.frames)-1]
+					return fmt.Sprintf("L%d before %s in %s", l.id, l.op, top.fn.Name())
+				}
+				return fmt.Sprint(id)
+			}
+			tr = append(tr, fmt.Sprintf("step %2d: thread %d (%s): %s => %s   %s", k, t, spec.Threads[t], desc(from), desc(to), strings.Join(ch, "; ")))
+		}
+		return tr
+	}
+	// Queries are independent: each is printed as a one-shot script (the default z3 tactic on a
+	// one-shot BV problem is ~25x faster here than the incremental core) and they run in parallel.
+	type bq struct {
+		name, msg string
+		script    string
+		nwant     int
+		r         smt.Result
+		vals      []uint64
+		secs      float64
+		witness   bool
+	}
+	var qs []*bq
+	ask := func(name string, bad *T, violationMsg string) {
+		as := append(append([]*T{}, m.trans...), bad)
+		qs = append(qs, &bq{name: name, msg: violationMsg, script: smt.OneShotScript("z3-new", B, as, want), nwant: len(want)})
+	}
+	// reachability witness: some complete execution exists
+	ask("witness: a complete execution exists", allDone(K), "")
+	qs[0].witness = true
+	for _, l := range b.locs {
+		if l.err == "" {
+			continue
+		}
+		var bad []*T
+		for t := 0; t < m.nthr; t++ {
+			for k := 0; k <= K; k++ {
+				bad = append(bad, B.Eq(m.pc[t][k], B.Const(uint64(l.id), 16)))
+			}
+		}
+		ask("unreachable: "+l.err, B.Or(bad...), "a thread reaches "+l.err)
 	}
 	if safe != nil {
 		var bad []*T
@@ -962,6 +1253,123 @@ func (x *X) BMCCheck(spec BMCSpec, pkg *ssa.Package) *BMCResult {
 	}
 	// unwinding assertion: every execution is complete (or deadlocked, reported above) within K steps
 	ask("unwinding assertion", anyEn(K), "")
+	if d := os.Getenv("VERIF_BMCDUMP"); d != "" {
+		for i, q := range qs {
+			os.WriteFile(fmt.Sprintf("%s/q%d.smt2", d, i), []byte(q.script), 0644)
+		}
+	}
+	tmo := x.Cfg.BMCTimeoutMs
+	if tmo == 0 {
+		tmo = 600000
+	}
+	// cube-and-conquer: every query is split on the first spec.Cubes scheduler choices; the
+	// sub-queries are independent solver runs; unsat iff all unsat, sat as soon as one is sat
+	var cubes []string
+	cubes = []string{""}
+	for c := 0; c < spec.Cubes && c < K; c++ {
+		var next []string
+		for _, pre := range cubes {
+			for t := 0; t < m.nthr; t++ {
+				next = append(next, pre+fmt.Sprintf("(assert (= |sched@%d| #x%02x))\n", c, t))
+			}
+		}
+		cubes = next
+	}
+	type sub struct {
+		q    *bq
+		r    smt.Result
+		vals []uint64
+		secs float64
+	}
+	var subs []*sub
+	for _, q := range qs {
+		for range cubes {
+			subs = append(subs, &sub{q: q})
+		}
+	}
+	done := make(chan *sub, len(subs))
+	for i, sb := range subs {
+		cube := cubes[i%len(cubes)]
+		go func(sb *sub, cube string) {
+			bmcSem <- struct{}{}
+			t0 := now()
+			script := sb.q.script
+			if cube != "" {
+				j := strings.LastIndex(script, "(check-sat)")
+				script = script[:j] + cube + script[j:]
+			}
+			sb.r, sb.vals, _ = smt.RunScript("z3-new", script, sb.q.nwant, tmo)
+			sb.secs = since(t0)
+			<-bmcSem
+			done <- sb
+		}(sb, cube)
+	}
+	for _, q := range qs {
+		q.r = smt.Unsat
+	}
+	for range subs {
+		sb := <-done
+		q := sb.q
+		q.secs += sb.secs
+		switch sb.r {
+		case smt.Sat:
+			if q.r != smt.Sat {
+				q.r, q.vals = smt.Sat, sb.vals
+			}
+		case smt.Unknown:
+			if q.r == smt.Unsat {
+				q.r = smt.Unknown
+			}
+		}
+		if x.Cfg.Trace && len(cubes) == 1 {
+			fmt.Fprintf(os.Stderr, "  .. query %q: %s %.1fs\n", q.name, sb.r.String(), sb.secs)
+		}
+	}
+	if x.Cfg.Trace && len(cubes) > 1 {
+		for _, q := range qs {
+			fmt.Fprintf(os.Stderr, "  .. query %q (%d cubes): %s, %.1fs solver time in total\n", q.name, len(cubes), q.r.String(), q.secs)
+		}
+	}
+	res.Cubes = len(cubes)
+	for _, q := range qs {
+		res.Queries = append(res.Queries, BMCQuery{Name: q.name, Result: q.r.String(), Seconds: q.secs})
+		x.S.Queries += len(cubes)
+		x.S.Time += time.Duration(q.secs * float64(time.Second))
+		switch q.r {
+		case smt.Sat:
+			x.S.NSat++
+			switch {
+			case q.witness:
+				x.St.Reached["complete-execution"] = true
+			case q.msg != "":
+				model := map[string]uint64{}
+				for i, w := range want {
+					model[w.Name] = q.vals[i]
+				}
+				var sched []int
+				for k := 0; k < K; k++ {
+					sched = append(sched, int(model[fmt.Sprintf("sched@%d", k)]))
+				}
+				if res.Schedule == nil {
+					res.Schedule = sched
+				}
+				small := map[string]uint64{}
+				for n, v := range model {
+					if strings.HasPrefix(n, "sched@") {
+						small[n] = v
+					}
+				}
+				x.St.Violations = append(x.St.Violations, Violation{Msg: q.msg, Kind: "assert", Model: small, Trace: mkTrace(model), Where: "interleaving of " + strings.Join(specThreads(spec), ", ")})
+			default:
+				x.St.Inconclusive = append(x.St.Inconclusive, q.name+": some execution is not complete within "+fmt.Sprint(K)+" scheduler steps (unwinding assertion)")
+			}
+		case smt.Unsat:
+			x.S.NUnsat++
+		case smt.Unknown:
+			x.S.NUnk++
+			x.St.Inconclusive = append(x.St.Inconclusive, q.name+": solver unknown / time-out")
+		}
+	}
 	return res
 }
 
